@@ -55,9 +55,14 @@ SInit == CASE Skel = 0 -> BInit
 \* the SAME pair unified twice: the second call reads the holes the first one solved -- at their shifts, below the binders and
 \* local definitions between a hole's home and its occurrence -- and has to confirm the first; against a host whose subterm was
 \* replaced by a ground constant it has to fail unless that constant is what the solution is
-Again(t) == UNION { UNION { { [kind |-> "again", a |-> Replace(t, s.pos, Hole(1, sh)), b |-> t, a2 |-> Replace(t, s.pos, Hole(1, sh)), b2 |-> t] }
-                            \cup { [kind |-> "again-mismatch", a |-> Replace(t, s.pos, Hole(1, sh)), b |-> t, a2 |-> Replace(t, s.pos, Hole(1, sh)), b2 |-> Replace(t, s.pos, k)] : k \in {TInt, TType} \ {s.sub} }
-                            : sh \in 0..s.d }
+\* (where the host is  (x : type) => (d : .. = ..; body)  and the position lies in that body, the calls are ALSO made on the bodies
+\* under the definitions context of the two binders -- `peel` -- which is how the type checker calls the unifier: a local
+\* definition between a hole's home and its occurrence is then a context entry, not a `let` that normalisation opens)
+CanPeel(t, s) == t.k = "lam" /\ t.b.k = "let" /\ Len(t.b.defs) = 1 /\ Len(s.pos) >= 2 /\ s.pos[1] = "b" /\ s.pos[2] = "b"
+AgainAt(t, s, sh, pl) ==
+   { [kind |-> "again", peel |-> pl, a |-> Replace(t, s.pos, Hole(1, sh)), b |-> t, a2 |-> Replace(t, s.pos, Hole(1, sh)), b2 |-> t] }
+   \cup { [kind |-> "again-mismatch", peel |-> pl, a |-> Replace(t, s.pos, Hole(1, sh)), b |-> t, a2 |-> Replace(t, s.pos, Hole(1, sh)), b2 |-> Replace(t, s.pos, k)] : k \in {TInt, TType} \ {s.sub} }
+Again(t) == UNION { UNION { AgainAt(t, s, sh, 0) \cup (IF CanPeel(t, s) THEN AgainAt(t, s, sh, 2) ELSE {}) : sh \in 0..s.d }
                     : s \in { x \in Subterms(t, <<>>, 0) : x.pos # <<>> } }
 Emit3 == (Done /\ size >= 2 /\ ~HasHole(T) /\ WellTyped(T)) => \A p \in Again(T) : PrintT(<<"PAIR", ToJson(p)>>)
 Reducts(t) == { P("reduct", t, StepN(t, k)) : k \in 0..3 }
